@@ -286,6 +286,9 @@ def resubscribe (ts : MemTopics) (c : Nat) : List (Bytes × Nat) → MemTopics
   | [] => ts
   | (t, q) :: rest => resubscribe (ts.subscribe Generated.maxQosAllowed t q c).1 c rest
 
+/-- `handleConnection` from `getSession` on (and its refusals): the first packet of
+connection `c` once `disconnectClient` has run (`takeOver` below; the checks
+before it change nothing and are evaluated again here with the same result) -/
 def first (b : B) (c : Nat) (f : First) (authOk : Bool) : B × List Out :=
   match f with
   | .garbage => (b, [.closed c])
@@ -315,6 +318,40 @@ def first (b : B) (c : Nat) (f : First) (authOk : Bool) : B × List Out :=
       let b2 := { b1 with conns := b1.conns.filter (fun (x : Conn) => x.id != c) ++ [({ id := c, sess := s.ref, alive := true } : Conn)] }
       let b3 := { b2 with topics := resubscribe b2.topics c s.topics }
       (b3, [.send c (.connack sp 0)])
+
+/-- the live connections whose session carries client identifier `cid`
+(`disconnectClient`: the scan of `svr.svcs` under `svr.mu`) -/
+def sameClient (b : B) (cid : Bytes) : List Nat :=
+  (b.conns.filter (fun cn => cn.alive && (match b.getSess cn.sess with
+    | some s => s.cid == cid
+    | none => false))).map (·.id)
+
+/-- `s.stop(); <-s.stopped` for each of them, one after the other -/
+def stopAll (b : B) : List Nat → B × List Out
+  | [] => (b, [])
+  | c :: cs =>
+    let (b1, o1) := stop b c
+    let (b2, o2) := stopAll b1 cs
+    (b2, o1 ++ o2)
+
+/-- `handleConnection` between authentication and `getSession`, under
+`connectMu`: a decoded and authenticated CONNECT with a supplied client
+identifier disconnects the existing connections of that client and waits for
+the end of their teardown (MQTT-3.1.4-2) -/
+def takeOver (b : B) (f : First) (authOk : Bool) : B × List Out :=
+  match f with
+  | .connect req =>
+    match connectDecode req with
+    | .inr true =>
+      if !authOk || req.clientId.isEmpty then (b, []) else stopAll b (sameClient b req.clientId)
+    | _ => (b, [])
+  | _ => (b, [])
+
+/-- `handleConnection` -/
+def connect (b : B) (c : Nat) (f : First) (authOk : Bool) : B × List Out :=
+  let (b0, o0) := takeOver b f authOk
+  let (b1, o1) := first b0 c f authOk
+  (b1, o0 ++ o1)
 
 /-! ### packets on an accepted connection (`processIncoming`) -/
 
@@ -383,7 +420,7 @@ def srvUnsub (b : B) (cb : Nat) (filter : Bytes) : B × List Out :=
   ({ b with topics := ts }, if ok then [] else [.apiErr])
 
 def step (b : B) : Ev → B × List Out
-  | .first c f a => first b c f a
+  | .first c f a => connect b c f a
   | .packet c p => packet b c p
   | .close c => stop b c
   | .srvPub p => srvPub b p
